@@ -54,9 +54,10 @@ func seedOps(w world) []op {
 			{"inject-user", "pay-G-A"}, {"inject-user", "pay-B-A"}, {"publish", "1h"}}
 	}
 	if w.Publisher {
-		return []op{{"inject-user", "pay-G-A"}, {"publish", "1h"}, {"inject-user", "pay-A-B"}, {"publish", "1h"}}
+		return []op{{"inject-user", "pay-G-A"}, {"publish", "1h"}, {"inject-user", "pay-A-B"}, {"publish", "1h"}, {"inject-foreign", "fee-minus-1-G-A"}}
 	}
-	return []op{{"block", "valid[pay-G-A]+1h"}, {"block", "valid2[pay-G-A,pay-A-B]+10s"}}
+	// two blocks, then a pending transaction that is soft-invalid now (fee one hour short) and a valid one
+	return []op{{"block", "valid[pay-G-A]+1h"}, {"block", "valid2[pay-G-A,pay-A-B]+10s"}, {"inject-foreign", "fee-minus-1-G-A"}, {"inject-foreign", "pay-B-A"}}
 }
 
 func runExplore(r *engine.Run, prop string, cfg exploreCfg, rule string) {
@@ -98,7 +99,7 @@ func runExplore(r *engine.Run, prop string, cfg exploreCfg, rule string) {
 				if root == "distributed" {
 					for _, o := range seedOps(w) {
 						oc := l.n.apply(o, false, nil)
-						if !strings.Contains(oc, "accepted") && !strings.HasPrefix(oc, "inject:ok") && !strings.HasPrefix(oc, "publish:") {
+						if !strings.Contains(oc, "accepted") && !strings.HasPrefix(oc, "inject:ok") && !strings.HasPrefix(oc, "inject:soft") && !strings.HasPrefix(oc, "publish:") {
 							panic(fmt.Sprintf("CHECK-BROKEN: seed op %s gave %s", o, oc))
 						}
 						l.hist = append(l.hist, o)
